@@ -4,7 +4,7 @@
    (Model/SessionSpec.v).  Server behaviour ranges over ALL scripts (lists over
    the reply alphabet [sitem], including unexpected elements, malformed XML, close). *)
 From Coq Require Import List ZArith NArith Bool.
-From XV Require Import Lib.Sx Model.Session Model.SessionSpec Proofs.SessionP Proofs.SessionSpecP Proofs.SessionWaitP Proofs.SessionSmP Proofs.SessionEvP.
+From XV Require Import Lib.Sx Model.Session Model.SessionSpec Proofs.SessionP Proofs.SessionSpecP Proofs.SessionWaitP Proofs.SessionSmP Proofs.SessionEvP Proofs.SessionWsP.
 Import ListNotations.
 
 (* success <-> every mandatory step completed.  [connect] = transport.Connect + NewSession. *)
@@ -103,6 +103,31 @@ Theorem C03_requests_justified : forall cfg dial tls p script,
   Forall (justified cfg p script) (reqs (outs (connect cfg dial tls p script))).
 Proof. exact connect_just. Qed.
 
+(* ---- either transport: the WebSocket transport ([connect_ws], Model/Session.v) ----
+   It is secure from the start (wss://) or not at all (ws://) and never does STARTTLS.
+   Connecting succeeds exactly when the stream is opened, the transport is secure or Insecure
+   allows clear text, and authentication, restart and the rest complete as over TCP; the
+   requests are in RFC 6120 order, and in particular there is NO stream restart before
+   authentication: whatever the server does, the request after the stream open is <auth/>;
+   each request follows the confirmation of the one before. *)
+Theorem C03_ws_connect_ok_iff : forall cfg dial secure p script,
+  res (connect_ws cfg dial secure p script) = Ok <-> completes_ws cfg dial secure p script.
+Proof. exact connect_ws_ok. Qed.
+
+Theorem C03_ws_requests_ordered : forall cfg dial secure p script,
+  ordered (reqs (outs (connect_ws cfg dial secure p script))) = true /\
+  match reqs (outs (connect_ws cfg dial secure p script)) with
+  | [] | [ROpen] | ROpen :: RAuth _ :: _ => True
+  | _ => False
+  end.
+Proof.
+  intros cfg dial secure p script. split; [apply connect_ws_ordered|apply connect_ws_second_request].
+Qed.
+
+Theorem C03_ws_waits_for_confirmation : forall cfg dial secure p script,
+  chain None (outs (connect_ws cfg dial secure p script)) = true.
+Proof. exact connect_ws_chain. Qed.
+
 (* "never hangs, never panics" are NOT theorems here.  [connect] is a total function that
    pattern-matches a finite prefix of the script (C03_seen_is_read), which only says that the
    model never waits for anything but the next server item; blocking inside the real
@@ -136,6 +161,9 @@ Print Assumptions C03_established_once.
 Print Assumptions C03_history_established.
 Print Assumptions C03_offered_tls_is_mandatory.
 Print Assumptions C03_requests_justified.
+Print Assumptions C03_ws_connect_ok_iff.
+Print Assumptions C03_ws_requests_ordered.
+Print Assumptions C03_ws_waits_for_confirmation.
 Print Assumptions C03_otherwise_error.
 Print Assumptions C03_requests_ordered.
 Print Assumptions C03_waits_for_confirmation.
